@@ -472,7 +472,7 @@ func last(x []string) string {
 }
 
 func props() []engine.AnyProp {
-	return []engine.AnyProp{engine.Prop[Case]{ID: "C13", Subject: "Backtest", Gen: genCase, Check: check}}
+	return []engine.AnyProp{engine.Prop[Case]{ID: "C13", Subject: "Backtest", Gen: genCase, Check: check}, cliProp()}
 }
 
 func TestC13(t *testing.T) { engine.RunAll(t, props(), false) }
